@@ -436,7 +436,9 @@ fn dns_assembly_concrete(n0: u8, n1: u8, nq: usize) {
 
 //# harness: c14_dns_assembly_one
 //# props: C14 C01
-//# tier: quick
+//# tier: extended
+//# timeout: 3000
+//# note: no result within 1500 s (measured): DNSPacket::repl serialises and re-parses every record byte by byte
 //# encodes: proto::dns::DNSPacket::repl (assembly of header, echoed questions and answers), DNSHeader::repl, DNSQuery::repl, DNSRR, From<&DNSPacket> for Vec<u8>
 //# bounds: one IN/A question for the one-byte name 'a'; header flags concrete (RD set), message ID and destination address symbolic, questions built directly in their parsed state
 //# out: QDCOUNT > 2; names longer than one label of one byte; the byte-wise message parser beyond the header
@@ -449,7 +451,9 @@ fn c14_dns_assembly_one() {
 
 //# harness: c14_dns_assembly_two_distinct
 //# props: C14 C01
-//# tier: thorough
+//# tier: extended
+//# timeout: 3000
+//# note: no result within 1500 s (measured): DNSPacket::repl serialises and re-parses every record byte by byte
 //# encodes: proto::dns::DNSPacket::repl (assembly of header, echoed questions and answers), DNSHeader::repl, DNSQuery::repl, DNSRR, From<&DNSPacket> for Vec<u8>
 //# bounds: two IN/A questions for the names 'a' and 'b'; header flags concrete (RD set), message ID and destination address symbolic, questions built directly in their parsed state
 //# out: QDCOUNT > 2; names longer than one label of one byte; the byte-wise message parser beyond the header
@@ -462,7 +466,9 @@ fn c14_dns_assembly_two_distinct() {
 
 //# harness: c14_dns_assembly_two_same
 //# props: C14 C01
-//# tier: quick
+//# tier: extended
+//# timeout: 3000
+//# note: no result within 1500 s (measured): DNSPacket::repl serialises and re-parses every record byte by byte
 //# encodes: proto::dns::DNSPacket::repl (assembly of header, echoed questions and answers), DNSHeader::repl, DNSQuery::repl, DNSRR, From<&DNSPacket> for Vec<u8>
 //# bounds: two IN/A questions for the same name 'a'; header flags concrete (RD set), message ID and destination address symbolic, questions built directly in their parsed state
 //# out: QDCOUNT > 2; names longer than one label of one byte; the byte-wise message parser beyond the header
